@@ -43,6 +43,15 @@ CHECKS = {
               "matrices on 2e4 (quick) / 1e6 (thorough) triples with |p| up to 1e3 and angles up to pi-1e-3, boundary "
               "classes included."),
         ref="DESIGN.md section 5 / C04"),
+    "C05": dict(
+        technique="runtime monitoring: reference model in lock-step over operation histories, state read after every step",
+        text=("Real Arm objects (5 bundled URDFs, the 6R test arm, random 1..7-joint chains; built at a base or at "
+              "identity then moved) are driven through generated histories of length <= 10 over {FK, IK both paths, "
+              "move, move(stationary), setArbitraryHome, restoreOriginalEE, randomPos} next to an independent "
+              "product-of-exponentials model; after every step the return value, getEEPos, getBasePos, "
+              "getJointTransforms, jacobian() and jacobianBody() are compared with the model (1e-7 poses).  640 "
+              "(quick) / 4e4 (thorough) histories."),
+        ref="DESIGN.md section 5 / C05"),
     "C12": dict(
         technique="runtime monitoring: reference-oracle monitor (own adjoint) over generated frames/operands",
         text=("Frame-change group action, recorded frame, pairing invariance, p x f moment and zero moment at the "
